@@ -142,6 +142,13 @@ def run_once(ctx):
         if not ok:
             res.findings.append(Finding("boot:cli-override:" + label, "command line option had no effect: " + label,
                                         {"engine": "boot"}))
+    # (h) predefined users are registered users, with or without a mask on the account
+    for label, ok in boot.account_modes(binary, hooks):
+        res.evaluations += 1
+        res.distinct.add("account:" + label.split(":")[0])
+        if not ok:
+            res.findings.append(Finding("boot:predefined-user-modes:" + label, "predefined users: " + label + " - not so",
+                                        {"engine": "boot"}))
     # (g) the two keep-alive settings each govern their own interval (the rest of the keep-alive behaviour is C17's)
     tp = boot.timing_probe(binary, hooks)
     res.extra["timing_probe"] = [t[1] for t in tp if t[0] == "ok"]
